@@ -15,6 +15,7 @@ import (
 	"github.com/oneconcern/datamon/pkg/cafs"
 	context2 "github.com/oneconcern/datamon/pkg/context"
 	"github.com/oneconcern/datamon/pkg/core"
+	"github.com/oneconcern/datamon/pkg/model"
 	"github.com/oneconcern/datamon/pkg/storage"
 
 	"verifharness/gen"
@@ -124,6 +125,9 @@ func puKeys(w *world.World, repo, id string) ([]string, []puFile) {
 	return out, files
 }
 
+// bundles committed from diamonds: their expected files include entries under .conflicts/
+var exactBundles = map[string]bool{}
+
 func puApply(w *world.World, steps []puStep, r *gen.Rand, live map[string][]string, orig map[string][]world.File, sec *int64, tmp string) {
 	for i := range steps {
 		s := &steps[i]
@@ -136,6 +140,41 @@ func puApply(w *world.World, steps []puStep, r *gen.Rand, live map[string][]stri
 			}
 			live[s.Repo] = append(live[s.Repo], s.ID)
 			orig[s.Repo+"/"+s.ID] = s.Files
+		case "diamond": // a diamond of two splits with conflicting versions: the bundle holds the losing ones under .conflicts/
+			*sec += 10
+			did := kid(r, *sec)
+			dd := model.NewDiamondDescriptor(model.DiamondID(did))
+			if _, err := core.CreateDiamond(s.Repo, w.Stores(), core.DiamondDescriptor(dd), core.DiamondLogger(world.Nop)); err != nil {
+				panic(err)
+			}
+			var alt []world.File
+			for j, f := range s.Files {
+				if j%2 == 0 {
+					alt = append(alt, world.File{Name: f.Name, Data: append([]byte("the other version of "), f.Data...)})
+				}
+			}
+			for j, files := range [][]world.File{s.Files, alt} {
+				sd := model.NewSplitDescriptor(model.SplitID(fmt.Sprintf("split-%d", j)))
+				got, err := core.CreateSplit(s.Repo, did, w.Stores(), core.SplitDescriptor(sd), core.SplitLogger(world.Nop))
+				if err != nil {
+					panic(err)
+				}
+				sp := core.NewSplit(s.Repo, did, w.Stores(), core.SplitDescriptor(&got), core.SplitConsumableStore(world.Consumable(files)), core.SplitLogger(world.Nop))
+				sp.BundleDescriptor.LeafSize = 64
+				if err := sp.Upload(); err != nil {
+					panic(err)
+				}
+				time.Sleep(3 * time.Millisecond)
+			}
+			d := core.NewDiamond(s.Repo, w.Stores(), core.DiamondDescriptor(model.NewDiamondDescriptor(model.DiamondID(did))), core.DiamondLogger(world.Nop))
+			d.BundleDescriptor.LeafSize = 64
+			if err := d.Commit(); err != nil {
+				panic(err)
+			}
+			s.ID = d.BundleID
+			live[s.Repo] = append(live[s.Repo], s.ID)
+			orig[s.Repo+"/"+s.ID] = c17Merged(s.Files, alt)
+			exactBundles[s.Repo+"/"+s.ID] = true
 		case "delete":
 			l := live[s.Repo]
 			if len(l) == 0 {
@@ -379,7 +418,11 @@ func puRun(cs *puCase, r *gen.Rand) {
 				continue
 			}
 			got, err := w.Download(b.Repo, b.ID, 0, nil)
-			b.Reads = err == nil && sameFiles(got, orig[b.Repo+"/"+b.ID])
+			if exactBundles[b.Repo+"/"+b.ID] {
+				b.Reads = err == nil && sameFilesExact(got, orig[b.Repo+"/"+b.ID])
+			} else {
+				b.Reads = err == nil && sameFiles(got, orig[b.Repo+"/"+b.ID])
+			}
 		}
 	}
 	// the purge lock: concurrent acquisitions
@@ -467,7 +510,11 @@ func puGen(prop string, r *gen.Rand, i int) *puCase {
 	cs := &puCase{Prop: prop, Chunk: uint64(r.Range(1, 5)), FaultFree: true}
 	repos := []string{"ra", "rb"}
 	for j := 0; j < r.Range(2, 6); j++ {
-		cs.Pre = append(cs.Pre, puStep{Op: "upload", Repo: repos[r.Intn(2)], Files: puTree(r)})
+		op := "upload"
+		if r.Chance(1, 4) { // the bundle of a diamond commit that kept losing versions under .conflicts/
+			op = "diamond"
+		}
+		cs.Pre = append(cs.Pre, puStep{Op: op, Repo: repos[r.Intn(2)], Files: puTree(r)})
 		if r.Chance(1, 4) {
 			cs.Pre = append(cs.Pre, puStep{Op: "delete", Repo: repos[r.Intn(2)], Which: r.Intn(4)})
 		}
